@@ -107,6 +107,12 @@ def main():
 
     sfa = squash(func_body(incl, "_GD_SetFieldAffixes"))
     gates["g_nsaffix"] = int(need(r"if\(GD_PVERS_GE\(\*p,(\d+)\)\)\{constchar\*nsin=NULL;", sfa, "namespace gate of /INCLUDE", 0))
+    if re.search(r"if\(D->fragment\[me\]\.ns==NULL\)\{\*nsl=nsinl;", sfa):
+        nullns = False
+    elif re.search(r"if\(D->fragment\[me\]\.nsl==0\)\{\*nsl=nsinl;", sfa):
+        nullns = True
+    else:
+        problems.append("cannot read the root-namespace join of _GD_SetFieldAffixes"); nullns = False
     inc = squash(func_body(incl, "_GD_Include"))
     enc_inh = bool(re.search(r"D->fragment\[me\]\.encoding=p->flags&GD_ENCODING;", inc)) and \
         bool(re.search(r"D->fragment\[me\]\.byte_sex=.*?\(p->flags&GD_BIG_ENDIAN\)\?GD_BIG_ENDIAN:GD_LITTLE_ENDIAN", inc)) and bool(flags_ok)
@@ -156,7 +162,7 @@ def main():
                   "g_protect", "g_reference", "g_version", "g_slash", "g_barth", "g_nsname", "g_nsaffix", "g_fo_base0"]:
             fh.write("  %s := %d;\n" % (k, gates[k]))
         fh.write("  prm_leak_parent := %d; prm_leak_child := %d;\n" % (leak_p, leak_c))
-        fh.write("  prm_alias_bounded := %s; prm_ns_pop := %s |}.\n" % (b(bounded), b(ns_pop)))
+        fh.write("  prm_alias_bounded := %s; prm_ns_pop := %s; prm_nullns := %s |}.\n" % (b(bounded), b(ns_pop), b(nullns)))
         fh.write("\nDefinition translator_problems : nat := %d%%nat.\n" % len(problems))
     for p in problems:
         print("PROBLEM: " + p)
